@@ -75,8 +75,27 @@ def optimise(cell):
         return classify(e)
 
 
+def via_file(cell):
+    """the same cell after NeuroMLWriter.write / read_neuroml2_file (components then carry their XML node)"""
+    import os
+    import tempfile
+    import neuroml.loaders
+    import neuroml.writers
+    doc = neuroml.NeuroMLDocument(id="d")
+    doc.cells.append(cell)
+    fd, path = tempfile.mkstemp(suffix=".nml")
+    os.close(fd)
+    try:
+        neuroml.writers.NeuroMLWriter.write(doc, path)
+        return neuroml.loaders.read_neuroml2_file(path).cells[0]
+    finally:
+        os.unlink(path)
+
+
 def run_case(case):
     cell = build(case)
+    if case.get("via_file"):
+        cell = via_file(cell)
     ids = [g["id"] for g in case["groups"]]
     out = {"resolved": [query(cell, i) for i in ids], "all": query(cell, "all")}
     out["opt"] = optimise(cell)
